@@ -85,6 +85,8 @@ def oracle (fhs : List Nat) (best : Nat) (maxRangeObs : Int) (c : Call) (xs : Li
       if 1 ≤ c.target ∧ c.target ≤ best then
         let lim := if c.maxBatch > 0 ∧ c.maxBatch < maxRangeObs then c.maxBatch else maxRangeObs
         if 1 ≤ s ∧ s ≤ (c.target : Int) ∧ (c.target : Int) ≤ e ∧ e ≤ (best : Int) ∧ e - s + 1 ≤ lim then [] else ["bad-range"]
+      -- a query is prepared only for a block whose filter header is committed
+      else if c.target > best then ["query-above-filter-tip"]
       else []
     | none => []
   c1 ++ c2 ++ c3 ++ c4 ++ c5 ++ c6 ++ c7 ++ c8
